@@ -606,6 +606,23 @@ theorem tailU_fields (cfg : Cfg) (a : A) :
   by_cases h3 : a.now - a.tInfo > 5000 <;>
   simp [tailU, h1, h2, h3]
 
+theorem tailU_errs (cfg : Cfg) (a : A) (e : List (String × String)) :
+    tailU cfg { a with errs := e } = { tailU cfg a with errs := e } := by
+  by_cases h1 : (cfg.timing && decide (a.now - a.tTiming > 900)) = true <;>
+  by_cases h2 : a.now - a.tTraffic > 1000 <;>
+  by_cases h3 : a.now - a.tInfo > 5000 <;>
+  simp [tailU, h1, h2, h3]
+
+theorem tailU_noErr_congr (cfg : Cfg) {a b : A} (h : b.noErr = a.noErr) : (tailU cfg b).noErr = (tailU cfg a).noErr := by
+  rw [eq_of_noErr h, tailU_errs]; rfl
+
+theorem noteAll_eq (cfg : Cfg) : ∀ (l : List (List Ev)) (a : A),
+    l.foldl (noteMgrFrames cfg) a = { a with recvT := l.foldl noteRecv a.recvT, recvR := l.foldl noteRecv a.recvR }
+  | [], _ => rfl
+  | e :: l, a => by
+    simp only [List.foldl_cons]
+    rw [noteAll_eq cfg l, noteMgrFrames_eq]
+
 theorem tail_noErr (cfg : Cfg) (a : A) (evs : List Ev) : (tail cfg a evs).noErr = (tailU cfg a).noErr := by
   unfold tail tailU
   dsimp only
